@@ -89,77 +89,134 @@ def expected_kept(rec, sel):
     return cnt, n_data
 
 
+def _isint(t):
+    try:
+        int(t)
+        return True
+    except ValueError:
+        return False
+
+
+def _isnum(t):
+    try:
+        float(t)
+        return True
+    except ValueError:
+        return False
+
+
+def header_labels(lines, upto, first='chi2'):
+    """parameter labels as printed in the header (lower-cased tokens after chi2/av/scale), or None.
+    Any number of header / comment lines is tolerated: the header is recognised by its labels."""
+    for l in lines[:upto]:
+        tok = [t.lower() for t in l.split()]
+        if first in tok and 'av' in tok and ('scale' in tok or 'sc' in tok):
+            i = max(tok.index('av'), tok.index('scale') if 'scale' in tok else tok.index('sc'))
+            return tok[i + 1:]
+    return None
+
+
+def expected_columns(labels, cols):
+    """order in which the values are expected: by the printed labels when there are any (so that a header whose labels
+    are in another order than the values is seen), else in table + additional order"""
+    if labels and sorted(labels) == sorted(c.lower() for c in cols):
+        low = {c.lower(): c for c in cols}
+        return [low[l] for l in labels]
+    return list(cols)
+
+
 def check_write_parameters(ctx, text, recs, sel, truth, additional, wit):
     lines = text.split('\n')
     cols = truth['cols'] + list(additional)
-    i = 3
-    for rec in recs:
+    names = [r['source']['name'] for r in recs]
+    # locate the block of each source by content: "<name> <n_data> <n_fits>"
+    starts = [i for i, l in enumerate(lines) if len(l.split()) == 3 and l.split()[0] in names and _isint(l.split()[1]) and _isint(l.split()[2])]
+    if [lines[i].split()[0] for i in starts] != names:
+        ctx.violation('write_parameters:source-line', 'the listing does not have one "name n_data n_fits" line per source, in input order',
+                      dict(wit, found=[lines[i].split()[0] for i in starts], expected=names))
+        return
+    labels = header_labels(lines, starts[0] if starts else 0)
+    ecols = expected_columns(labels, cols)
+    for k_, (rec, i0) in enumerate(zip(recs, starts)):
         cnt, n_data = expected_kept(rec, sel)
         if cnt is None:
             return
-        tok = lines[i].split()
-        i += 1
-        name = rec['source']['name']
-        if len(tok) != 3 or tok[0] != name or int(tok[1]) != n_data or int(tok[2]) != cnt:
-            ctx.violation('write_parameters:source-line', 'source line does not show name, n_data (flags 1,4) and n_fits (selected fits)',
-                          dict(wit, line=lines[i - 1], expected=(name, n_data, cnt)))
+        tok = lines[i0].split()
+        if int(tok[1]) != n_data or int(tok[2]) != cnt:
+            ctx.violation('write_parameters:source-line', 'source line does not show n_data (flags 1,4) and n_fits (selected fits)',
+                          dict(wit, line=lines[i0], expected=(rec['source']['name'], n_data, cnt)))
             return
-        for j in range(cnt):
-            tok = lines[i].split()
-            i += 1
+        end = starts[k_ + 1] if k_ + 1 < len(starts) else len(lines)
+        rows = [l for l in lines[i0 + 1:end] if l.strip()]
+        if len(rows) != cnt:
+            ctx.violation('write_parameters:fit-line', 'number of fit lines is not the number of selected fits', dict(wit, rows=len(rows), expected=cnt))
+            return
+        for j, l in enumerate(rows):
+            tok = l.split()
             mname = str(rec['model_name'][j]).strip()
-            ok = len(tok) == 5 + len(cols) and int(tok[0]) == j + 1 and tok[1] == mname and close3f(tok[2], rec['chi2'][j]) and \
+            ok = len(tok) == 5 + len(cols) and _isint(tok[0]) and int(tok[0]) == j + 1 and tok[1] == mname and close3f(tok[2], rec['chi2'][j]) and \
                 close3f(tok[3], rec['av'][j]) and close3f(tok[4], rec['sc'][j])
-            if ok:
-                for c, col in enumerate(cols):
-                    want = truth['rows'][mname][col] if col in truth['cols'] else additional[col][mname]
-                    if not close3e(tok[5 + c], want):
-                        ok = False
-                        ctx.violation('write_parameters:wrong-parameter-row', 'the parameter values printed next to a fit are not those of the model named in it',
-                                      dict(wit, line=lines[i - 1], model=mname, column=col, expected=want))
-                        return
             if not ok:
-                ctx.violation('write_parameters:fit-line', 'a fit line does not show rank, model name, chi2, A_V, scale of fit i', dict(wit, line=lines[i - 1], rank=j + 1, model=mname))
+                ctx.violation('write_parameters:fit-line', 'a fit line does not show rank, model name, chi2, A_V, scale of fit i', dict(wit, line=l, rank=j + 1, model=mname))
                 return
-    if any(l.strip() for l in lines[i:]):
-        ctx.violation('write_parameters:extra-lines', 'more lines than selected fits', dict(wit, extra=lines[i:i + 3]))
+            for c, col in enumerate(ecols):
+                want = truth['rows'][mname][col] if col in truth['cols'] else additional[col][mname]
+                if not close3e(tok[5 + c], want):
+                    ctx.violation('write_parameters:wrong-parameter-row', 'the parameter values printed next to a fit (under the printed labels) are not those of the model named in it',
+                                  dict(wit, line=l, model=mname, column=col, expected=want, labels=labels))
+                    return
     ctx.event('text:write_parameters')
+    if labels:
+        ctx.event('text:labels-used')
 
 
 def check_ranges(ctx, text, recs, sel, truth, additional, wit):
     lines = text.split('\n')
     cols = truth['cols'] + list(additional)
-    for k, rec in enumerate(recs):
+    names = [r['source']['name'] for r in recs]
+    rows = [l for l in lines if l.split() and l.split()[0] in names and len(l.split()) >= 3 and _isint(l.split()[1]) and _isint(l.split()[2])]
+    if [l.split()[0] for l in rows] != names:
+        ctx.violation('ranges:source-columns', 'the ranges listing does not have one line per source, in input order', dict(wit, found=[l.split()[0] for l in rows]))
+        return
+    first = lines.index(rows[0]) if rows else 0
+    labels = None
+    for l in lines[:first]:
+        tok = [t.lower() for t in l.split()]
+        if 'chi2' in tok and 'av' in tok:
+            i = max(tok.index('av'), tok.index('scale') if 'scale' in tok else 0)
+            labels = tok[i + 1:]
+    ecols = expected_columns(labels, cols)
+    for rec, l in zip(recs, rows):
         cnt, n_data = expected_kept(rec, sel)
         if cnt is None:
             return
-        tok = lines[3 + k].split()
-        name = rec['source']['name']
+        tok = l.split()
         nq = 3 + len(cols)
-        if len(tok) != 3 + 3 * nq or tok[0] != name or int(tok[1]) != n_data or int(tok[2]) != cnt:
+        if len(tok) != 3 + 3 * nq or int(tok[1]) != n_data or int(tok[2]) != cnt:
             ctx.violation('ranges:source-columns', 'ranges line does not show name, n_data, n_fits and one (min, best, max) triple per quantity',
-                          dict(wit, line=lines[3 + k][:200], expected=(name, n_data, cnt)))
+                          dict(wit, line=l[:200], expected=(rec['source']['name'], n_data, cnt)))
             return
         vals = tok[3:]
         if cnt == 0:
-            if any(v != '-' for v in vals):
-                ctx.violation('ranges:placeholder', 'zero selected fits must print the placeholder', dict(wit, line=lines[3 + k][:200]))
+            if any(_isnum(v) and np.isfinite(float(v)) for v in vals):
+                ctx.violation('ranges:placeholder', 'zero selected fits must not print numbers', dict(wit, line=l[:200]))
             continue
-        quantities = [np.asarray(rec['chi2'][:cnt], float), np.asarray(rec['av'][:cnt], float), np.asarray(rec['sc'][:cnt], float)]
+        quantities = [('chi2', np.asarray(rec['chi2'][:cnt], float)), ('av', np.asarray(rec['av'][:cnt], float)), ('scale', np.asarray(rec['sc'][:cnt], float))]
         mn = [str(x).strip() for x in rec['model_name'][:cnt]]
-        for col in cols:
-            quantities.append(np.array([truth['rows'][m][col] if col in truth['cols'] else additional[col][m] for m in mn], float))
-        for qi, q in enumerate(quantities):
-            want = (np.nanmin(q), q[0], np.nanmax(q))
+        for col in ecols:
+            quantities.append((col, np.array([truth['rows'][m][col] if col in truth['cols'] else additional[col][m] for m in mn], float)))
+        for qi, (qn, q) in enumerate(quantities):
+            with np.errstate(all='ignore'):
+                want = (np.nanmin(q) if np.any(np.isfinite(q)) else np.nan, q[0], np.nanmax(q) if np.any(np.isfinite(q)) else np.nan)
             got = vals[3 * qi:3 * qi + 3]
-            if not all(close3e(g, w) for g, w in zip(got, want)):
+            if not all(_isnum(g) and close3e(g, w_) for g, w_ in zip(got, want)):
                 ctx.violation('ranges:wrong-triple', 'a (min, best, max) triple is not the minimum, rank-1 value and maximum over the selected fits',
-                              dict(wit, quantity=(['chi2', 'av', 'scale'] + cols)[qi], got=got, expected=want))
+                              dict(wit, quantity=qn, got=got, expected=want, labels=labels))
                 return
     ctx.event('text:write_parameter_ranges')
 
 
-def check_extract(ctx, files, recs, sel, truth, wit, table_cols):
+def check_extract(ctx, files, recs, sel, truth, wit, table_cols, header=True):
     for rec in recs:
         cnt, n_data = expected_kept(rec, sel)
         if cnt is None:
@@ -168,12 +225,18 @@ def check_extract(ctx, files, recs, sel, truth, wit, table_cols):
         if fn not in files:
             ctx.violation('extract:file-missing', 'no file for a source', dict(wit, source=fn))
             return
-        lines = files[fn].decode().split('\n')
-        hdr = lines[0].split()
-        if hdr[:3] != ['CHI2', 'AV', 'SC'] or hdr[3:] != table_cols:
-            ctx.violation('extract:header', 'header does not list CHI2 AV SC and the parameter columns', dict(wit, header=hdr))
+        lines = [l for l in files[fn].decode().split('\n') if l.strip()]
+        hdr = None
+        if lines and not all(_isnum(t) for t in lines[0].split()[:3]):
+            hdr = lines[0].split()
+            lines = lines[1:]
+        if header and (hdr is None or [h.upper() for h in hdr[:3]] != ['CHI2', 'AV', 'SC'] or hdr[3:] != table_cols):
+            ctx.violation('extract:header', 'header does not list CHI2 AV SC and the requested parameter columns', dict(wit, header=hdr))
             return
-        rows = [l for l in lines[1:] if l.strip()]
+        if not header and hdr is not None:
+            ctx.violation('extract:header', 'a header was written although header=False', dict(wit, header=hdr))
+            return
+        rows = lines
         if len(rows) != cnt:
             ctx.violation('extract:row-count', 'number of rows is not the number of selected fits', dict(wit, rows=len(rows), expected=cnt))
             return
@@ -189,8 +252,8 @@ def check_extract(ctx, files, recs, sel, truth, wit, table_cols):
                 else:
                     ok = close3e(tok[3 + c], truth['rows'][mname][col])
             if not ok:
-                ctx.violation('extract:wrong-row', 'row j does not show chi2, A_V, scale of fit j and the parameters of the model named in it',
-                              dict(wit, line=l, rank=j + 1, model=mname))
+                ctx.violation('extract:wrong-row', 'row j does not show chi2, A_V, scale of fit j and the requested parameters of the model named in it',
+                              dict(wit, line=l, rank=j + 1, model=mname, columns=table_cols))
                 return
     ctx.event('text:extract_parameters')
 
@@ -205,8 +268,8 @@ def run(ctx):
                 '0, 1, some, all fits; with/without additional dictionaries; inputs as file, one object, list. a case = one writer call; non-trivial = >=2 selected fits')
     ctx.assume('printed precision: %10.3e -> 5e-4 relative, %10.3f -> 5e-4 absolute', 'selectors whose threshold equals an attained value are skipped (C05 don\'t-care)',
                'parameter values are position-encoding: (model+1)*10^column, so any row mix-up is visible at printed precision')
-    ctx.require_events('FitInfo.filter_table:post', 'text:write_parameters', 'text:write_parameter_ranges', 'text:extract_parameters', 'plot_params:table-checked')
-    ctx.require_regimes('perm:identity', 'perm:reversed', 'perm:random', 'perm:name-sorted', 'selected:0', 'selected:1', 'selected:all', 'additional', 'additional:several',
+    ctx.require_events('FitInfo.filter_table:post', 'text:labels-used', 'text:write_parameters', 'text:write_parameter_ranges', 'text:extract_parameters', 'plot_params:table-checked')
+    ctx.require_regimes('perm:identity', 'perm:reversed', 'perm:random', 'perm:name-sorted', 'selected:0', 'selected:1', 'selected:all', 'additional', 'additional:several', 'parameter:nan', 'extract:subset',
                         'input:file', 'input:object', 'input:list')
     n_pk = 8 if ctx.quick else 40
     did_plot = False
@@ -218,6 +281,9 @@ def run(ctx):
         names = gen.model_names(rng, n_models, str(rng.choice(['lex', 'mixed', 'num'])))
         colnames = ['P%d' % c for c in range(ncol)]
         params = {c: (np.arange(n_models) + 1.0) * 10.0 ** ci * (1 if ci % 2 == 0 else -1) for ci, c in enumerate(colnames)}
+        if ncol >= 2 and ip % 3 == 0:
+            params[colnames[-1]][int(rng.integers(n_models))] = np.nan      # a model without a value for one parameter
+            ctx.regime('parameter:nan')
         kind = ['identity', 'reversed', 'random', 'name-sorted'][ip % 4]
         order = {'identity': list(range(n_models)), 'reversed': list(range(n_models))[::-1], 'random': list(rng.permutation(n_models)),
                  'name-sorted': list(np.argsort(names))}[kind]
@@ -258,7 +324,7 @@ def run(ctx):
         table_cols = ['MODEL_NAME'] + colnames
         chi_all = np.concatenate([r['chi2'] for r in recs])
         fin = chi_all[np.isfinite(chi_all)]
-        sels = [('A', 0), ('N', 1), ('N', 2), ('N', n_models + 3), ('C', float(np.min(fin)) * 0.5 - 1.0), ('C', float(np.median(fin)) * 1.0001 + 1e-6),
+        sels = [('A', 0), ('N', 0), ('N', 1), ('N', 2), ('N', n_models + 3), ('C', float(np.min(fin)) * 0.5 - 1.0), ('C', float(np.median(fin)) * 1.0001 + 1e-6),
                 ('D', float(np.ptp(fin)) * 0.37 + 1e-6), ('F', 1e9), ('E', float(np.median(fin)) / 3.0 + 1e-6)]
         for isel, sel in enumerate(sels):
             for form in ('file', 'object', 'list'):
@@ -295,9 +361,15 @@ def run(ctx):
                     ctx.violation('write_parameter_ranges:raised:%s' % type(exc).__name__, 'write_parameter_ranges raised: %r' % (exc,), wit)
                 try:
                     os.mkdir(out + '.ex')
-                    extract_parameters(input=inp, output_prefix=out + '.ex/', output_suffix='.txt', select_format=sel)
+                    ekw, ecols_, ehdr = {}, table_cols, True
+                    if (isel + ip) % 2 == 1:          # a chosen subset of the parameters, in a chosen order, and no header
+                        ecols_ = [colnames[-1], 'MODEL_NAME'] + ([colnames[0]] if ncol > 1 else [])
+                        ehdr = bool((isel + ip) % 4 == 1)
+                        ekw = dict(parameters=ecols_, header=ehdr)
+                        ctx.regime('extract:subset')
+                    extract_parameters(input=inp, output_prefix=out + '.ex/', output_suffix='.txt', select_format=sel, **ekw)
                     files = {f: open(os.path.join(out + '.ex', f), 'rb').read() for f in os.listdir(out + '.ex')}
-                    check_extract(ctx, files, rr, sel, truth, dict(wit, writer='extract_parameters'), table_cols)
+                    check_extract(ctx, files, rr, sel, truth, dict(wit, writer='extract_parameters', extract_options=str(ekw)), ecols_, header=ehdr)
                 except Exception as exc:
                     ctx.violation('extract_parameters:raised:%s' % type(exc).__name__, 'extract_parameters raised: %r' % (exc,), wit)
                 ctx.case(('w', ip, isel, form, ctx.shard), nontrivial=any((c_ or 0) >= 2 for c_ in kept),
